@@ -1006,7 +1006,39 @@ class C20:
         strip = lambda t: sorted(t.replace('·', '').replace('@', ''))
         return all(strip(x) == strip(y) or set(strip(x)) == set(strip(y)) for x, y in cells)
 
-    MATCHERS = {'dotted_duration_reordered': _m_dotted.__func__, 'combining_signifiers': _m_combining.__func__}
+    @staticmethod
+    def _m_glued(v, params):
+        """ekern -> kern -> ekern differs only in notes where a signifier of the first ekern's '·' list reappears glued to the
+        pitch part of the second (a stand-alone display-suffix letter next to an accidental: '8@D@--·X' -> kern '8D--X' ->
+        '8@D@--X·X'). Any input class; every differing note must have exactly this shape."""
+        d = v.get('detail') or {}
+        cells = d.get('cells') or []
+        if v['class'] != 'roundtrip-differs' or not cells or d.get('grid_differs'):
+            return False
+        for x, y in cells:
+            nx, ny = x.split(' '), y.split(' ')
+            if len(nx) != len(ny):
+                return False
+            glued = False
+            for a, b in zip(nx, ny):
+                if a == b:
+                    continue
+                ma, _, da = a.partition('·')
+                mb, _, db = b.partition('·')
+                sa = set(''.join(t for t in da.split('·') if t))
+                sb = set(''.join(t for t in db.split('·') if t))
+                if not mb.startswith(ma):
+                    return False
+                g = set(mb[len(ma):].replace('@', ''))
+                if not g or not g <= sa or not sb <= sa or not (sa - sb) <= g:
+                    return False
+                glued = True
+            if not glued:
+                return False
+        return True
+
+    MATCHERS = {'dotted_duration_reordered': _m_dotted.__func__, 'combining_signifiers': _m_combining.__func__,
+                'signifier_glued_to_pitch': _m_glued.__func__}
 
 
 CHECK = C20()
